@@ -110,6 +110,8 @@ pub struct ConnSnap {
     pub received_len: usize,
     pub server_fin: bool,
     pub unread_by_server: usize,
+    #[serde(default)]
+    pub dropped_unread: usize,
 }
 
 #[derive(Clone, Debug, Serialize, Deserialize, Default)]
@@ -923,6 +925,7 @@ fn snapshot(sh: &Arc<Shared>, label: &str) {
                 received_len: c.received_len(),
                 server_fin: c.server_fin().is_some(),
                 unread_by_server: c.unread_by_server(),
+                dropped_unread: c.unread_dropped_by_server(),
             },
             None => ConnSnap::default(),
         })
@@ -955,7 +958,7 @@ pub fn to_cfg(
         step_cap: 2_000_000,
         replay,
         tolerant,
-        stack_size: 256 * 1024,
+        stack_size: if sc.knobs.std_stack { 2 << 20 } else { 256 * 1024 },
         wall_base_secs: sc.knobs.wall_base_secs,
         record_log,
     }
